@@ -208,13 +208,43 @@ def rw_a(x: fp.Real, y: fp.Real, zs: list[fp.Real]) -> fp.Real:
     return u * tot + 96
 
 
+@fp.pattern
+def _peel_l(t, e):
+    while t > 0:
+        t = e
+
+
+@fp.pattern
+def _peel_r(t, e):
+    t = e
+    while t > 0:
+        t = e
+
+
+@fp.fpy
+def rw_b(x: fp.Real, y: fp.Real) -> fp.Real:
+    a = x + 101
+    while a > 0:
+        a = a - y
+    b = a * 102
+    if b > 103:
+        c = b + 104
+        while c > 0:
+            c = c / 2 - 105
+        b = c * y + 107
+    r = b + 106
+    return r
+
+
 def rules():
     from fpy2.rewrite import Rewrite
     return {
         'fma': (_fma_l, _fma_r),
         'sum': (_sum_l, _sum_r),
         'dbl': (_dbl_l, _dbl_r),
+        'peel': (_peel_l, _peel_r),
     }
 
 
 ROOTS.append('rw_a')
+ROOTS.append('rw_b')
